@@ -40,6 +40,12 @@ def main():
         sh(["git", "-C", REPO, "checkout", "--", "."])
         return 2
     results = {}
+    # evidence/ is committed from clean-tree runs only: keep the current files and put them back afterwards
+    saved = {}
+    for cid in ids:
+        ef = os.path.join(ROOT, "evidence", cid + ".json")
+        if os.path.exists(ef):
+            saved[ef] = open(ef).read()
     try:
         for cid in ids:
             t0 = time.time()
@@ -60,6 +66,8 @@ def main():
                 if l.startswith("VIOLATION"):
                     print("   " + l[:220])
     finally:
+        for ef, txt in saved.items():
+            open(ef, "w").write(txt)
         sh(["git", "-C", REPO, "reset", "-q"])
         sh(["git", "-C", REPO, "checkout", "--", "."])
         sh(["git", "-C", REPO, "clean", "-fdq"])
